@@ -169,8 +169,8 @@ SPEC_NEXT = r"""
 
 SPEC_BOA = r"""
     ensures
-        (r is Ok) == (slot_after(*old(lhs), rhs, op) is Some), // [C06_C12:op_assign_on_an_element_or_property_fails_exactly_when_the_operator_fails]
-        r is Ok ==> *final(lhs) == slot_after(*old(lhs), rhs, op)->0, // [C06_C12:op_assign_on_an_element_or_property_stores_old_value_op_rhs_and_plain_assign_stores_rhs]
+        (r is Ok) == (slot_after(*old(lhs), rhs, op) is Some), // [C06_C12_C16:op_assign_on_an_element_or_property_fails_exactly_when_the_operator_fails]
+        r is Ok ==> *final(lhs) == slot_after(*old(lhs), rhs, op)->0, // [C06_C12_C16:op_assign_on_an_element_or_property_stores_old_value_op_rhs_and_plain_assign_stores_rhs]
         r is Err ==> *final(lhs) == *old(lhs), // [C06:failed_operator_leaves_the_slot_unchanged]
         r matches Err(e) ==> located(e), // [C17:binding_errors_are_located]
 """
@@ -247,7 +247,7 @@ def build(read):
     b.edits.append("annotation: ghost snapshots of the locked cell and 6 labelled assertions stating the operation performed on it")
     f2 = extract.annotate_fn(f2, spec=SPEC_BOA)
     f3 = extract.annotate_fn(f3, spec=SPEC_BIND)
-    setf = extract.annotate_fn(setf, spec="\n    ensures *final(slot) == v,\n")
+    setf = extract.annotate_fn(setf, spec="\n    ensures *final(slot) == v, // [C11_C12_C14:a_store_puts_the_value_together_with_its_provenance_into_the_slot]\n")
     b.edits.append("D3: std HashSet<String> / BTreeMap<String, SourcedValue> replaced by assumed set / finite-map contracts")
 
     b.text = assemble([
@@ -291,3 +291,5 @@ def replays(failed):
     yield ("property op-assign equals index op-assign", "o := {\"a\": 5}\no.a -= 2\no[\"a\"] -= 1\nprint(o.a)\n", _expect("2\n"))
     yield ("op-assign on a missing key", "o := {}\no.a += 1\n", _expect(err_sub="1:"))
     yield ("index write on a non-container", "x := 1\nx[0] = 1\n", _expect(err_sub="2:1:"))
+    yield ("an assigned function value keeps the object it was read from as `this`",
+           "a := {\"n\": 1, \"f\": fn() {\n    return this.n\n}}\ng := null\ng = a.f\nprint(g())\nxs := [null]\nxs[0] = a.f\nh := xs[0]\nprint(h())\n", _expect("1\n1\n"))
